@@ -105,7 +105,7 @@ def inAQuery (p : Bytes) : Option DMsg :=
   | none => none
   | some m =>
     if m.flags / 32768 = 0 ∧ m.an.isEmpty ∧ m.nscount = 0 ∧ m.arcount = 0 ∧ m.rest.isEmpty ∧
-       m.qd.all (fun q => q.qtype = 1 ∧ q.qclass = 1 ∧ labelsNoNul 256 q.name) then some m else none
+       m.qd.all (fun q => q.qtype = 1 ∧ q.qclass = 1) then some m else none
 
 /-- the response demanded by C14 -/
 def dnsReplyOk (q : DMsg) (r : Bytes) (dst4 : Bytes) : Bool :=
@@ -125,8 +125,7 @@ def dnsReplyOk (q : DMsg) (r : Bytes) (dst4 : Bytes) : Bool :=
 /-- a message that contains a question that is not IN/A (and is otherwise a parseable query) -/
 def hasNonInA (p : Bytes) : Bool :=
   match parseDns p with
-  | some m => m.flags / 32768 = 0 && m.qd.any (fun q => !(q.qtype = 1 ∧ q.qclass = 1)) &&
-              m.qd.all (fun q => labelsNoNul 256 q.name)
+  | some m => m.flags / 32768 = 0 && m.qd.any (fun q => !(q.qtype = 1 ∧ q.qclass = 1))
   | none => false
 
 /-- `short` = the bytes present are a proper prefix of a message with this header (every label seen so
@@ -144,7 +143,6 @@ def scanName : Nat → Bytes → Scan
     | l :: t =>
       if l = 0 then .done t
       else if l.toNat > 63 then .bad
-      else if (t.take l.toNat).any (· = 0) then .bad      -- outside the precondition (NUL inside a label)
       else if t.length < l.toNat then .short
       else scanName fuel (t.drop l.toNat)
 
